@@ -60,7 +60,8 @@ CHECKS = {
              "by occurrence. C03_rw_frag_canonical / C03_rw_frag_proj are UNBOUNDED: on the Gallina model of the rewriter for a fragment of Python (model/RwFrag.v, tied to the "
              "real rewriter by whole-tree equality in C01's K-syn) K-erasing the rewrite under ANY subscription set containing K gives one and the same tree, for every "
              "fragment program and every K. C03_frag_projection (model/FragSem.v) states the same about EVALUATION with no law assumed: the stream received for K from the term "
-             "instrumented for any superset equals the stream with K alone (K-sem ties the evaluator to real runs).",
+             "instrumented for any superset equals the stream with K alone (K-sem ties the evaluator to real runs). C03_prog_projection (model/FragProg.v) extends the evaluation statement to programs with while loops, break / continue, functions, return and calls, for every fixed guard "
+             "state (no handler flips a guard); K-prog (16 programs per run) is its tie.",
         note="Outside the fragment the universal claim over programs is established pair by pair (translation validation with a verified checker). The laws are facts about CPython's "
              "evaluation under observing handlers in an enabled context (guards never activated), validated by the stream oracle, not proved. Trusted: Coq kernel + "
              "vm_compute; astexport (one interner for both rewrites); translators for node kinds, event names, reserved identifiers.",
@@ -85,7 +86,8 @@ CHECKS = {
              "tracer subscribed to the union: per-tracer streams (event, node, value) must be identical and the global delivery log must be the union stream expanded in "
              "stack order. C05_frag_stack (model/FragSem.v) is UNBOUNDED on a fragment of Python: a module instrumented for the union of a stack's subscriptions delivers to "
              "tracer i what it is delivered alone, for all primitive operations, stacks, modules and environments (tied by K-sem); a pair battery (single-event tracers x "
-             "single / dense tracers on six feature programs) runs the oracle on the combinations that matter for statement-level events.",
+             "single / dense tracers on six feature programs) runs the oracle on the combinations that matter for statement-level events. C05_prog_stack: likewise for programs with loops and functions (model/FragProg.v, corollary of the projection theorem; K-prog, 16 programs per run)."
+             "",
         note="Trusted: Coq kernel + vm_compute; model/Rt.v loops tied by C04's correspondence; astexport; the laws of the projection theorem (validated by the oracle). "
              "Observing, unconditional handlers; all tracers accept the file.",
         ref="DESIGN.md section 7 C05"),
